@@ -165,12 +165,15 @@ def main():
     # -- thorough tier: the independent checker re-checks the compiled property files and everything they depend on
     chk = None
     if tier == 'thorough' and pr['ok'] and not os.environ.get('SZV_NO_COQCHK'):
-        mods = ' '.join('SZ.' + f[:-2].replace('/', '.') for f in pr['files'])
+        # files whose independent re-check takes far longer than a registered command may (C05b pulls in Flocq and the Reals:
+        # 44 min; its last manual coqchk log is findings/coqchk_c05b.log) are re-checked only with SZV_COQCHK_FULL=1
+        skip = [] if os.environ.get('SZV_COQCHK_FULL') else list(P.get('coqchk_skip', []))
+        mods = ' '.join('SZ.' + f[:-2].replace('/', '.') for f in pr['files'] if f not in skip)
         t1 = time.time()
-        rc, out = sh(f'timeout 2400 coqchk -o -silent -Q . SZ {mods} 2>&1', timeout=2500, cwd=COQ)
+        rc, out = sh(f'timeout {4000 if os.environ.get("SZV_COQCHK_FULL") else 2400} coqchk -o -silent -Q . SZ {mods} 2>&1', timeout=4100, cwd=COQ)
         m = re.search(r'\* Axioms:(.*?)\* Constants/Inductives relying on type-in-type:(.*?)\* Constants/Inductives relying on unsafe \(co\)fixpoints:(.*?)'
                       r'\* Inductives whose positivity is assumed:(.*)', out, re.S)
-        chk = {'cmd': f'coqchk -o -silent -Q . SZ {mods}', 'rc': rc, 'seconds': round(time.time() - t1, 1)}
+        chk = {'cmd': f'coqchk -o -silent -Q . SZ {mods}', 'rc': rc, 'seconds': round(time.time() - t1, 1), 'skipped_too_slow': skip}
         if rc != 0 or not m:
             broken.append('coqchk does not accept the compiled property files: ' + out[-300:])
         else:
